@@ -493,7 +493,7 @@ def tcp_case(res, case, attempt=0):
             error = exc
     tcpnet.wait_quiet(0, 3.0)
     res.notes['interleaving_signatures'] = [net.signature()]
-    if isinstance(error, exceptions.DCMTimeoutError) and attempt < 2:
+    if tcpnet.is_timeout(error) and attempt < 2:
         res.count('flaky-timeouts')
         return tcp_case(res, case, attempt + 1)
     res.count('oracle.tcp-sample')
